@@ -58,7 +58,7 @@ def run_unit(u, tier, pid=None):
     outt = os.path.join(BUILD, u.name + '_twin.rs'); open(outt, 'w').write(tw.text)
     open(os.path.join(BUILD, u.name + '.diff'), 'w').write(gen.diff)
     with ThreadPoolExecutor(max_workers=2) as ex:
-        f1 = ex.submit(V.run, out)
+        f1 = ex.submit(V.run, out, (), 900, 20)   # twice the default resource limit: fewer solver-instability 'undecided' results
         f2 = ex.submit(V.run, outt)
         r = f1.result(); rt = f2.result()
     ur.gen, ur.res = gen, r
